@@ -494,7 +494,6 @@ func t1Translate(f *ast.File, names []string, src string) string {
 	return out.String()
 }
 
-
 // t1 writes Generated/T1.lean: the translated recovery helpers (recovery.go) and examineBypasses (final.go).
 func t1() {
 	var b strings.Builder
